@@ -487,6 +487,9 @@ def plan(tier, seed):
     for d in ((2.03, 2.499, 2.6) if tier == 'quick' else (2.0, 2.03, 2.2, 2.4, 2.499, 2.501, 2.6, 3.0)):
         for orient in ('dock', '+x', '-x', '+y', '-y', '+z', '-z', 'diag'):
             others.append(dict(kind='bridge', d=d, orient=orient))
+            if orient in ('+x', '-y', '+z') and 2.3 <= d < 2.5:
+                for shift in (400, 800, 1200, 1600, 2000):
+                    others.append(dict(kind='bridge', d=d, orient=orient, shift=shift))
             if orient in ('dock', '+x', 'diag'):
                 others.append(dict(kind='bridge', d=d, orient=orient, partner='MSH'))      # a thiol ligand on the cysteine
     allc = streams + windows
@@ -668,6 +671,8 @@ def run_case(case, ctx, acc):
                 c = (a.x, a.y, a.z)
                 a.x, a.y, a.z = (int(round(sum(R[i][j] * c[j] for j in range(3)))) for i in range(3))
         s.translate(gen.seed_offset(ctx.seed))
+        if case.get('shift'):      # slide the pair along the bond direction (positions relative to any spatial grid of the bond search)
+            s.translate(tuple(case['shift'] * c for c in target))
         keys = [(a.chain, a.resnum, a.icode) for a in sg if a.rec == 'ATOM  ']
         other = [(a.chain, a.resnum, a.icode) for a in s.atoms if a.rec == 'ATOM  ' and (a.chain, a.resnum, a.icode) not in keys][:1]
         arg = lambda ks: ','.join('%s:%d%s' % (c, n, i.strip()) for c, n, i in ks)   # noqa: E731
